@@ -106,7 +106,7 @@ func (s *uciSim) sync() {
 		case "loop.idle":
 			s.loop = lsIdleParked
 			s.loopInCmd = false
-		case "loop.recv", "loop.ponder", "loop.afterAnalyze", "loop.exit":
+		case "loop.recv", "loop.ponder", "loop.expired", "loop.afterAnalyze", "loop.exit", "engine.lock", "halt.enter", "halt.woken", "halt.closed", "complete.cas":
 			s.loop = lsBusy
 		}
 	}
@@ -154,7 +154,9 @@ func (s *uciSim) consume() int {
 
 // canDeliver: the loop sits in its select with nothing else ready.
 func (s *uciSim) canDeliver() bool {
-	return s.loop == lsSelecting && !s.inClosed && !s.outClosed
+	// with the output buffer full (stalled consumer) a writer may be blocked inside the loop without
+	// the controller having seen it park: then "selecting" is not known to be true
+	return s.loop == lsSelecting && !s.inClosed && !s.outClosed && len(s.out) < cap(s.out)
 }
 
 func (s *uciSim) deliver(line string) bool {
@@ -172,7 +174,8 @@ func (s *uciSim) deliver(line string) bool {
 		s.sync()
 		return true
 	default:
-		return false
+		// the GUI models have already booked the line as sent: a silent drop would corrupt them
+		panic("sim: deliver(" + line + ") although the command loop is not receiving")
 	}
 }
 
@@ -319,6 +322,10 @@ func (s *uciSim) stepRandom(gui func() string, wDeliver, wClock int) {
 		s.quiet++
 	case 3:
 		s.stall = 5 + s.t.Choose(200)
+		if s.t.Chance(1, 4) {
+			s.stall = 300 + s.t.Choose(1500) // long enough for the driver's output buffer to fill up and block its writers
+			s.res.Fault("stall-out-long")
+		}
 		s.res.Fault("stall-out")
 		s.res.Tracef("[%d] consumer stalls for %d steps", s.steps, s.stall)
 	}
